@@ -40,10 +40,13 @@ def undictify_complex_values(data: dict) -> dict:
     return data
 
 def dictify_all_complex_values(data: dict) -> dict:
-    for key, value in data.items():
+    def dictify_all(value):
         if isinstance(value, dict):
-            data[key] = dictify_all_complex_values(value)
-    return data
+            return dictify_all_complex_values(value)
+        if isinstance(value, list):
+            return [dictify_all(v) for v in value]
+        return value
+    return dictify_complex_values({key: dictify_all(value) for key, value in data.items()})
 
 def undictify_all_complex_values(data: dict) -> dict:
     for key, value in data.items():
